@@ -795,14 +795,9 @@ fn expand_home(tokens: &mut types::Tokens) {
             continue;
         }
 
-        let mut s: String = text.clone();
-        let ptn = r"^~(?P<tail>.*)";
-        let re = Regex::new(ptn).expect("invalid re ptn");
+        // the home directory is text, whatever characters it contains
         let home = tools::get_user_home();
-        let ss = s.clone();
-        let to = format!("{}$tail", home);
-        let result = re.replace_all(ss.as_str(), to.as_str());
-        s = result.to_string();
+        let s = format!("{}{}", home, &text[1..]);
 
         buff.push((idx, s.clone()));
         idx += 1;
